@@ -85,8 +85,8 @@ func runScopeSeq(c *Ctx, mode int, cached bool, shards uint, ops []seqOp) bool {
 		switch op.kind {
 		case 'i':
 			sc := h[op.arg]
-			if closedObj[sc] && !inertObj[sc] && !rootClosed {
-				return false // recording on a closed, not inert scope: delivery is not determined
+			if mode != 2 && closedObj[sc] && !inertObj[sc] && !rootClosed {
+				return false // a counter / gauge on a closed, not inert scope: delivery is not determined
 			}
 			if mode == 2 && rootClosed && !inertObj[sc] {
 				timerAfterClose++
@@ -94,10 +94,7 @@ func runScopeSeq(c *Ctx, mode int, cached bool, shards uint, ops []seqOp) bool {
 			if mode == 2 {
 				// a timer hands every record to the reporter at once: one delivery per record through an open scope,
 				// none through an inert one, none at all after the root's Close
-				// (C10: also through a handle obtained before its scope or the root was closed - the timer still forwards)
-				if closedObj[sc] && !inertObj[sc] {
-					return false // keep the histories of the three modes the same
-				}
+				// (C10: also through a handle whose scope, or whose root, has been closed since - the timer still forwards)
 				sc.Timer("t").Record(time.Duration(amount))
 				if !inertObj[sc] {
 					timerWant++
